@@ -8,7 +8,9 @@ RULE = (
     "overwrite, x object kind {output, error output, section of output, IO, IO.section()} x formatter {plain, forced "
     "ANSI} x verbosity {NORMAL, VERBOSE, VERY_VERBOSE, DEBUG} x flags {None, 0..7} x quiet {off, on}; each cell on "
     "fresh objects with a unique marker text. Non-trivial: flags with >= 2 bits, or quiet on, or a section / IO-level "
-    "entry point. Every cell is a distinct case by construction."
+    "entry point. section-history: two sections of one output, every history of three write_line calls over section x "
+    "flags x quiet x verbosity: a marker is in the stream iff the gate was open when it was written. Every cell / "
+    "history is a distinct case by construction."
 )
 ASSUMPTIONS = [
     "quiet and verbosity are set on the object under test itself (sections do not inherit them from their parent, "
@@ -152,7 +154,48 @@ def check_cell(ctx, case, by_construction=False):
                  sig=("%s.%s" % (KINDS[kind], method)))
 
 
-PARTS = {"gate": check_cell}
+def check_section_history(ctx, case, by_construction=False):
+    """Several sections of one output, a history of writes with changing quiet / verbosity: a marker is in the
+    stream iff the gate was open when it was written - a closed write must not surface later (e.g. when another
+    section redraws)."""
+    from clikit.api.io import Output
+    from clikit.io.output_stream import BufferedOutputStream
+
+    ctx.case("section-history", case, True, distinct_by_construction=by_construction)
+    stream = BufferedOutputStream()
+    out = Output(stream, make_formatter(case["formatter"]))
+    sections = [out.section() for _ in range(case["sections"])]
+    written = []  # (marker, open?)
+    for i, (si, flags, quiet, verbosity) in enumerate(case["steps"]):
+        sec = sections[si]
+        sec.set_quiet(bool(quiet))
+        sec.set_verbosity(verbosity)
+        marker = "MK%dX" % i
+        try:
+            sec.write_line(marker, flags)
+        except Exception as e:
+            ctx.fail("section-history", "C10.gate", case, "write_line returns", {"step": i}, exc=e)
+            return
+        written.append((marker, expected_open(verbosity, flags, bool(quiet))))
+        data = stream.fetch()
+        for m, was_open in written:
+            if (m in data) != was_open:
+                ctx.fail("section-history", "C10.gate" if was_open else "C10.nothing-else", case,
+                         {m: "in the stream" if was_open else "never in the stream"}, {"after_step": i, "stream": data},
+                         sig="section-history-" + ("lost" if was_open else "leaked"))
+                return
+
+
+def shard_section_history(ctx, arg):
+    import itertools
+
+    fmt_kind, first = arg
+    options = [(si, fl, q, v) for si in (0, 1) for fl in (None, 1, 4) for q in (0, 1) for v in (0, 4)]
+    for rest in itertools.product(options, repeat=2):
+        check_section_history(ctx, {"formatter": fmt_kind, "sections": 2, "steps": [list(first)] + [list(r) for r in rest]}, True)
+
+
+PARTS = {"gate": check_cell, "section-history": check_section_history}
 
 
 def cells():
@@ -189,3 +232,6 @@ def run(ctx):
     for c in cells():
         check_cell(ctx, c, by_construction=True)
     ctx.exhaustive("gate", True, "object kinds x reflected methods x formatter x verbosity x flags x quiet")
+    options = [(si, fl, q, v) for si in (0, 1) for fl in (None, 1, 4) for q in (0, 1) for v in (0, 4)]
+    ctx.parallel("shard_section_history", [(k, o) for k in ("plain", "ansi") for o in options])
+    ctx.exhaustive("section-history", True, "2 sections x all histories of 3 write_line calls over section x flags {None,1,4} x quiet x verbosity {0,4} x formatter")
